@@ -37,7 +37,7 @@ func init() {
 // Op is one step of an abstract program. Selectors (H, Key) are resolved modulo what exists
 // at run time, so every sub-list of a program is again a valid program.
 type Op struct {
-	K      string `json:"k"`                // begin set del get getr keys commit rollback gc reopen burst delburst
+	K      string `json:"k"`                // begin set del get getr keys commit rollback gc reopen burst delburst txburst
 	H      int    `json:"h,omitempty"`      // actor selector: 0 = autocommit, else the (H-1 mod n)-th open transaction
 	Last   bool   `json:"last,omitempty"`   // address the most recently begun transaction that is still open
 	Late   bool   `json:"late,omitempty"`   // C13: address an ended transaction instead of an open one
@@ -104,10 +104,12 @@ type World struct {
 	noHook          bool
 	lastReadBackLen int
 
-	removedInGC int64
-	inGC        atomic.Bool
-	held        []heldRead // results of earlier reads, re-verified after every later read
-	heldReaders []heldReader // open GetReader results that are read some steps later
+	removedInGC  int64
+	inGC         atomic.Bool
+	held         []heldRead   // results of earlier reads, re-verified after every later read
+	heldReaders  []heldReader // open GetReader results that are read some steps later
+	bulkBytes    map[int]int  // per transaction: bytes of key names written by txburst steps
+	commitTooBig bool         // the last Commit failed because the transaction exceeds Badger's transaction size
 }
 
 var dirCounter atomic.Int64
@@ -309,6 +311,15 @@ func (w *World) key(sel int) string {
 		sel = -sel
 	}
 	return w.Case.Keys[sel%len(w.Case.Keys)]
+}
+
+// bulkKey is the j-th key of the burst of step i: a name of n bytes.
+func (w *World) bulkKey(i, j, n int) string {
+	head := fmt.Sprintf("bulk-%d-%05d-", i, j)
+	if n > len(head) {
+		return head + strings.Repeat("k", n-len(head))
+	}
+	return head
 }
 
 func (w *World) describe(b []byte) string {
@@ -929,6 +940,15 @@ func (w *World) apply(i int, op Op) bool {
 		if op.K == "commit" {
 			ck, wk := w.M.WouldConflict(id)
 			err = h.Commit(w.ctx)
+			if err != nil && w.bulkBytes[id] > 8<<20 && Class(err) != model.ErrTxSerialize && strings.Contains(err.Error(), "too big") {
+				// more version records than one Badger transaction holds: the commit is refused as a
+				// whole (the transaction is over, nothing of it may ever be visible)
+				w.M.Rollback(id)
+				w.commitTooBig = true
+				w.Stats["commit-too-big"]++
+				w.R.Logf("%s %s -> refused: %v", what, actorName(w, id), err)
+				return true
+			}
 			want = w.M.Commit(id)
 			if want == model.ErrTxSerialize {
 				w.Stats["commit-conflict"]++
@@ -951,6 +971,28 @@ func (w *World) apply(i int, op Op) bool {
 			w.R.Failf("%s: %s %s returned %s (%v), want %s", what, actorName(w, id), op.K, Class(err), err, want)
 			return false
 		}
+	case "txburst":
+		// N writes of small contents to fresh keys with names of Len bytes, through one transaction
+		id, ok := w.pickActor(op)
+		if !ok || id == 0 {
+			return true
+		}
+		for j := 0; j < op.N; j++ {
+			key := w.bulkKey(i, j, op.Len)
+			v := model.Val{Len: 1 + j%5, Seed: uint32(i*100000 + j + 1)}
+			b := model.Bytes(v)
+			w.noteContent(b, fmt.Sprintf("content written at step %d (#%d of a burst) by %s", i, j, actorName(w, id)))
+			if err := w.store(id).Set(w.ctx, key, b); err != nil {
+				w.R.Failf("%s: %s Set of burst key #%d failed: %v", what, actorName(w, id), j, err)
+				return false
+			}
+			w.M.Write(id, key, v)
+			if w.bulkBytes == nil {
+				w.bulkBytes = map[int]int{}
+			}
+			w.bulkBytes[id] += len(key)
+		}
+		w.Stats["txburst"]++
 	case "gc":
 		if w.Cont == nil {
 			return true
@@ -1008,6 +1050,16 @@ func (w *World) ApplyDry(i int, op Op) {
 			w.noteContent(model.Bytes(v), fmt.Sprintf("content written at step %d to %q by %s", i, key, actorName(w, id)))
 		}
 		w.M.Write(id, key, v)
+	case "txburst":
+		id, ok := w.pickActor(op)
+		if !ok || id == 0 {
+			return
+		}
+		for j := 0; j < op.N; j++ {
+			v := model.Val{Len: 1 + j%5, Seed: uint32(i*100000 + j + 1)}
+			w.noteContent(model.Bytes(v), fmt.Sprintf("content written at step %d (#%d of a burst) by %s", i, j, actorName(w, id)))
+			w.M.Write(id, w.bulkKey(i, j, op.Len), v)
+		}
 	case "commit", "rollback":
 		id, ok := w.pickActor(op)
 		if !ok || id <= 0 {
